@@ -24,6 +24,7 @@ var Dq = []string{
 	`{"a":{"b":{"c":[{"d":1}]}}}`,
 	`[[1,2],[3]]`,
 	`{"b":2,"a":1,"c":{"z":1,"y":2}}`,
+	`{"~1":1,"/":2,"a~1b":{"~0":[1]},"a/b":{"~":[2]},"~01":3}`,
 }
 
 // PatchValues V, simplest first.
